@@ -375,8 +375,17 @@ impl DbcParser {
 
         // never reserve more records than the data could hold
         let max_records = self.data.len() / (self.header.record_size.max(1) as usize);
-        let mut records =
-            Vec::with_capacity((self.header.record_count as usize).min(max_records));
+        if self.header.record_count as usize > max_records {
+            // e.g. a WDB2/WDB5 header with field_count = 0: every record would consume nothing and the
+            // loop below would push `record_count` empty records
+            return Err(Error::InvalidHeader(format!(
+                "{} records of {} bytes do not fit into {} bytes of data",
+                self.header.record_count,
+                self.header.record_size,
+                self.data.len()
+            )));
+        }
+        let mut records = Vec::with_capacity(self.header.record_count as usize);
 
         for _ in 0..self.header.record_count {
             let record = if let Some(schema) = &self.schema {
